@@ -132,12 +132,11 @@ Definition site_keylist := "routing_thread::RoutingThread::process_incoming_mess
 Definition site_keylist_debug := "io::network::Network::handle_received_key_list#1-unwrap@debug".
 Definition site_ghost_key := "routing_thread::RoutingThread::process_ghost_chain_request#2-unwrap".
 Definition site_gt_len := "consensus::golden_ticket::GoldenTicket::deserialize_from_net#1-assert".
-Definition site_key_changed := "consensus::peers::peer::Peer::handle_handshake_response#2-assert".
 (* `(last_shared_ancestor + 1)..=latest_block_id` in generate_ghost_chain: arithmetic, not part of the inventory *)
 Definition site_ghost_overflow := "routing_thread::RoutingThread::generate_ghost_chain#arith-add-overflow".
 
 Definition model_sites : list string :=
-  [site_block_tag; site_keylist; site_keylist_debug; site_ghost_key; site_gt_len; site_key_changed].
+  [site_block_tag; site_keylist; site_keylist_debug; site_ghost_key; site_gt_len].
 
 (* ---------------------------------------------------------------- handlers *)
 
@@ -165,7 +164,9 @@ Definition dispatch (st : state) (now idx : N) (p : peer) (m : msg) : state * ou
       else match p_key p2 with
            | Some k => if k =? key
                        then (put st idx (set_challenge false p2), OOk)
-                       else (put st idx p2, OPanic site_key_changed)
+                       (* since fix ae2aeaa: a response under another key is rejected like any bad response
+                          (before: assert_eq! panicked, finding assert-key-changed-panic of C17) *)
+                       else (put st idx (mark_disconnected now p2), ODisconnect)
            | None => (put st idx (set_challenge false (set_key (Some key) p2)), OOk)
            end
   | MBlock => (put st idx p, OPanic site_block_tag)
@@ -299,9 +300,6 @@ Definition known_msg (st : state) (now : N) (p : peer) (m : msg) : bool :=
                    end
   | MKeyList _ => snd (lim_check (lim_increase (p_kl p)) now)         (* key-list-limit-unwrap: the list that exceeds the quota *)
   | MTx ty len verified => verified && (ty =? GT_TYPE) && negb (len =? GT_LEN)   (* gt-tx-payload-len *)
-  | MResponse sig_ok ver_ok key =>                                    (* C17 assert-key-changed-panic *)
-      negb (snd (lim_check (lim_increase (p_hs p)) now)) && ver_ok && p_challenge p && sig_ok &&
-      match p_key p with Some k => negb (k =? key) | None => false end
   | _ => false
   end.
 
